@@ -2,6 +2,7 @@ CONSTANTS
   STAR = "*"
   QM = "?"
   COLON = ":"
+  Fold <- MCFold
   Dev = {}
   Apps <- MCApps
   Reqs <- MCReqs
@@ -10,8 +11,8 @@ CONSTANTS
   MaxHosts = 0
   MaxRoutes = 0
   MaxDef = 0
-  NHostVals = 5
-  NPaths = 8
+  NHostVals = 7
+  NPaths = 10
   NQueries = 3
   Others = {0}
   GenLists <- GenListsThorough
